@@ -137,7 +137,7 @@ def main():
         key = (part["pkg"], bool(part.get("race")))
         if key in bins:
             continue
-        if part.get("race") and tier != "thorough":
+        if part.get("race") and part.get("race") != "always" and tier != "thorough":
             continue
         b = build(part["pkg"], race=bool(part.get("race")))
         if b is None:
@@ -177,7 +177,7 @@ def main():
     if replay:
         rp = replay_part(replay)
         for part in spec["parts"]:
-            if part.get("race") and tier != "thorough":
+            if part.get("race") and part.get("race") != "always" and tier != "thorough":
                 continue
             if rp in (None, "", part["name"]):
                 jobs.append(mkjob(part, 0, 1, replay))
@@ -191,7 +191,7 @@ def main():
                 if rp == part["name"]:
                     jobs.append(mkjob(part, 0, 1, rf))
         for part in spec["parts"]:
-            if part.get("race") and tier != "thorough":
+            if part.get("race") and part.get("race") != "always" and tier != "thorough":
                 continue
             if part.get("tier_only") and part["tier_only"] != tier:
                 continue
@@ -226,7 +226,12 @@ def main():
         elif rc != 0 and not vio:
             txt = open(logpath, errors="replace").read()
             m = re.search(r"^(panic: .*|fatal error: .*)$", txt, re.M)
-            if m and "test timed out" in m.group(1):
+            race = race_in_repo_code(txt) if part.get("race") else None
+            if race:
+                keep = os.path.join(found_dir, f"{pid}-{name}-seed{seed}-race.log")
+                shutil.copyfile(logpath, keep)
+                violations.append((keep, "data race between goroutines in repository code (race detector): " + race, name))
+            elif m and "test timed out" in m.group(1):
                 # the go test deadline: a budget, never a verdict
                 infra.append(f"{name}: go test deadline reached (log {logpath})")
             elif m and crash_forbidden and crash_in_repo_code(txt):
@@ -279,6 +284,24 @@ def evidence_dir():
     if os.environ.get("VERIF_REPO"):
         return os.path.join(WORK, "evidence-scratch")
     return os.path.join(VERIF, "evidence")
+
+
+def race_in_repo_code(txt):
+    """First race-detector report in which BOTH conflicting accesses are in non-harness repository code."""
+    for rep in re.split(r"^WARNING: DATA RACE$", txt, flags=re.M)[1:]:
+        rep = rep.split("==================")[0]
+        blocks = re.split(r"^(?:Previous )?(?:[Rr]ead|[Ww]rite|atomic [a-z]+) at 0x[0-9a-f]+ by ", rep, flags=re.M)[1:3]
+        if len(blocks) < 2:
+            continue
+        tops = []
+        for b in blocks:
+            fr = re.search(r"^\s+(\S+\.go):(\d+)", b, re.M)
+            tops.append(fr.group(1) + ":" + fr.group(2) if fr else "")
+        def repo(p):
+            return p and ("/s2s-proxy/" in p or p.startswith(REPO) or p.startswith("/repo/")) and "/vf_" not in p and "/vfshared/" not in p
+        if all(repo(t) for t in tops):
+            return " <-> ".join(tops)
+    return None
 
 
 def crash_in_repo_code(txt):
